@@ -854,4 +854,112 @@ example : (flushAll .remaining (Clock.start .short) 0
     [Child.mk' .raw [(true, true)] [], Child.mk' .raw [] [], Child.mk' .raw [] []]).2.2.map (·.2) =
     [.flush .short true, .flush .zero true, .flush .zero true] := by decide
 
+/-! ## the atomic latch, from however many threads -/
+namespace Latch
+open Otel.Fanout.Latch
+
+/-- nothing forwarded while the latch is clear; once it is set there is exactly one winner, who has either not forwarded
+    yet or forwarded once and returned, and everybody else has not begun or has returned without forwarding -/
+def Inv (s : St) : Prop :=
+  (s.latch = false → s.forwarded = 0 ∧ ∀ i, s.pc i = .start) ∧
+  (s.latch = true → ∃ w, ((s.pc w = .won ∧ s.forwarded = 0) ∨ (s.pc w = .ret true ∧ s.forwarded = 1)) ∧
+    ∀ i, i ≠ w → (s.pc i = .start ∨ s.pc i = .ret false))
+
+theorem upd_same (f : Nat → PC) (i : Nat) (v : PC) : upd f i v i = v := by simp [upd]
+theorem upd_other (f : Nat → PC) (i j : Nat) (v : PC) (h : j ≠ i) : upd f i v j = f j := by simp [upd, h]
+
+theorem step_start_free (s : St) (i : Nat) (hpc : s.pc i = .start) (hl : s.latch = false) :
+    step s i = { s with latch := true, pc := upd s.pc i .won } := by simp [step, hpc, hl]
+theorem step_start_set (s : St) (i : Nat) (hpc : s.pc i = .start) (hl : s.latch = true) :
+    step s i = { s with pc := upd s.pc i (.ret false) } := by simp [step, hpc, hl]
+theorem step_won (s : St) (i : Nat) (hpc : s.pc i = .won) :
+    step s i = { s with forwarded := s.forwarded + 1, pc := upd s.pc i (.ret true) } := by simp [step, hpc]
+theorem step_ret (s : St) (i : Nat) (b : Bool) (hpc : s.pc i = .ret b) : step s i = s := by simp [step, hpc]
+
+theorem inv_step (s : St) (i : Nat) (h : Inv s) : Inv (step s i) := by
+  obtain ⟨h0, h1⟩ := h
+  cases hpc : s.pc i with
+  | start =>
+    cases hl : s.latch with
+    | false =>
+      -- caller i wins
+      obtain ⟨hf, hall⟩ := h0 hl
+      rw [step_start_free s i hpc hl]
+      refine ⟨fun h => absurd h (by simp), fun _ => ⟨i, Or.inl ⟨upd_same .., hf⟩, fun j hj => Or.inl ?_⟩⟩
+      show upd s.pc i .won j = .start
+      rw [upd_other _ _ _ _ hj]; exact hall j
+    | true =>
+      -- caller i loses: returns without forwarding
+      obtain ⟨w, hw, hrest⟩ := h1 hl
+      rw [step_start_set s i hpc hl]
+      have hiw : i ≠ w := by
+        intro e; subst e; rcases hw with ⟨hw, _⟩ | ⟨hw, _⟩ <;> (rw [hpc] at hw; cases hw)
+      refine ⟨fun h => absurd (show s.latch = false from h) (by simp [hl]), fun _ => ⟨w, ?_, fun j hj => ?_⟩⟩
+      · show (upd s.pc i (.ret false) w = .won ∧ _) ∨ (upd s.pc i (.ret false) w = .ret true ∧ _)
+        rw [upd_other _ _ _ _ (Ne.symm hiw)]; exact hw
+      · show upd s.pc i (.ret false) j = .start ∨ upd s.pc i (.ret false) j = .ret false
+        by_cases hji : j = i
+        · subst hji; right; exact upd_same ..
+        · rw [upd_other _ _ _ _ hji]; exact hrest j hj
+  | won =>
+    rw [step_won s i hpc]
+    cases hl : s.latch with
+    | false => have := (h0 hl).2 i; rw [hpc] at this; cases this
+    | true =>
+      obtain ⟨w, hw, hrest⟩ := h1 hl
+      have hiw : i = w := by
+        apply Classical.byContradiction; intro hne
+        rcases hrest i hne with h | h <;> (rw [hpc] at h; cases h)
+      subst hiw
+      have hf : s.forwarded = 0 := by
+        rcases hw with ⟨_, hf⟩ | ⟨hw, _⟩
+        · exact hf
+        · rw [hpc] at hw; cases hw
+      refine ⟨fun h => absurd h (by simp),
+        fun _ => ⟨i, Or.inr ⟨upd_same .., by show s.forwarded + 1 = 1; rw [hf]⟩, fun j hj => ?_⟩⟩
+      show upd s.pc i (.ret true) j = .start ∨ upd s.pc i (.ret true) j = .ret false
+      rw [upd_other _ _ _ _ hj]; exact hrest j hj
+  | ret b => rw [step_ret s i b hpc]; exact ⟨h0, h1⟩
+
+theorem inv_run (sched : List Nat) : Inv (run sched) := by
+  unfold run
+  suffices H : ∀ s, Inv s → Inv (sched.foldl step s) from
+    H init ⟨fun _ => ⟨rfl, fun _ => rfl⟩, fun h => by cases h⟩
+  induction sched with
+  | nil => intro s h; exact h
+  | cons i rest ih => intro s h; exact ih _ (inv_step s i h)
+
+/-- **the latch forwards at most once, from however many threads, under every interleaving**; once the caller that forwarded
+    has returned it has been forwarded exactly once; the callers that lost never forward -/
+theorem latch_forwards_once (sched : List Nat) :
+    (run sched).forwarded ≤ 1 ∧
+    (∀ i, (run sched).pc i = .ret true → (run sched).forwarded = 1) ∧
+    (∀ i j, (run sched).pc i = .ret true → (run sched).pc j = .ret true → i = j) := by
+  obtain ⟨h0, h1⟩ := inv_run sched
+  cases hl : (run sched).latch with
+  | false =>
+    obtain ⟨hf, hall⟩ := h0 hl
+    refine ⟨by rw [hf]; exact Nat.zero_le _, fun i hi => ?_, fun i _ hi _ => ?_⟩ <;> (rw [hall i] at hi; cases hi)
+  | true =>
+    obtain ⟨w, hw, hrest⟩ := h1 hl
+    have hwin : ∀ i, (run sched).pc i = .ret true → i = w := by
+      intro i hi
+      apply Classical.byContradiction; intro hne
+      rcases hrest i hne with h | h <;> (rw [hi] at h; cases h)
+    refine ⟨?_, fun i hi => ?_, fun i j hi hj => (hwin i hi).trans (hwin j hj).symm⟩
+    · rcases hw with ⟨_, hf⟩ | ⟨_, hf⟩ <;> rw [hf] <;> decide
+    · have := hwin i hi; subst this
+      rcases hw with ⟨hw, _⟩ | ⟨_, hf⟩
+      · rw [hi] at hw; cases hw
+      · exact hf
+
+/-- … but there is no mutex (unlike the batch processors' `shutdown_m`): **a caller that lost the latch can return before
+    the exporter has been shut down** — caller 0 wins, caller 1 finds the latch set and returns, nothing forwarded yet -/
+theorem loser_returns_before_forwarding_witness :
+    (run [0, 1]).pc 1 = .ret false ∧ (run [0, 1]).pc 0 = .won ∧ (run [0, 1]).forwarded = 0 := by decide
+
+example : (run [0, 1, 0, 2]).forwarded = 1 ∧ (run [0, 1, 0, 2]).pc 0 = .ret true ∧ (run [0, 1, 0, 2]).pc 2 = .ret false := by decide
+
+end Latch
+
 end Otel.C02.Fanout
